@@ -94,6 +94,9 @@ static void v_viol(const char* key, const char* fmt, ...)
     char buf[1024]; va_list ap; va_start(ap, fmt); vsnprintf(buf, sizeof buf, fmt, ap); va_end(ap);
     for (char* p = buf; *p; p++) if (*p == '\n' || *p == '\t') *p = ' ';
     printf("VIOL\t%s\t%ld\t%s\n", key, V.cur_case, buf); fflush(stdout); V.nviol++;
+#ifdef V_VIOL_ABORTS
+    fprintf(stderr, "MONITOR-VIOLATION\t%s\t%s\n", key, buf); abort();      /* coverage-guided runs: the fuzzer keeps the input as an artifact */
+#endif
 }
 static void v_sample(const char* fmt, ...) __attribute__((format(printf, 1, 2)));
 static void v_sample(const char* fmt, ...)
